@@ -232,7 +232,10 @@ def write_evidence(prop, tier, seed, meta, results, discharged, refuted, undecid
             job_secs[j] = max(job_secs.get(j, 0), r.extra.get("job_seconds", 0))
     slowest_jobs = sorted(job_secs.items(), key=lambda t: -t[1])[:8]
     cov = dict(
-        obligations=counted,
+        # obligations refuted on a listed known finding are decided (violated), reported under refuted_known_findings / known_findings,
+        # and not counted among the obligations this run had to discharge
+        obligations=counted - len(known_lines),
+        obligations_including_known_findings=counted,
         discharged=len(discharged),
         refuted_known_findings=len(known_lines),
         refuted=len(refuted),
